@@ -23,6 +23,7 @@ pub struct BlameHunk {
     pub committer_time: i64,
     pub committer_tz: String,
     pub is_boundary: bool,
+    pub filename: String,
 }
 //#end
 //#item file=src/commands/blame.rs kind=struct name=CurMeta impl="Repository" in_fn=blame_hunks_for_ranges
@@ -36,6 +37,7 @@ pub struct BlameHunk {
             committer_time: i64,
             committer_tz: String,
             boundary: bool,
+            filename: String,
         }
 //#end
 
@@ -45,7 +47,9 @@ uninterp spec fn sp_lines(s: Seq<char>) -> Seq<Seq<char>>;            // str::li
 uninterp spec fn sp_ws(l: Seq<char>) -> Seq<Seq<char>>;               // split_whitespace
 uninterp spec fn all_hex(t: Seq<char>) -> bool;                        // chars().all(is_ascii_hexdigit)
 uninterp spec fn num_or(t: Seq<char>, d: u32) -> u32;                  // parse::<u32>().unwrap_or(d)
-uninterp spec fn is_meta(k: int, l: Seq<char>) -> bool;                // the k-th metadata test (strip_prefix("author ") ..., == "boundary")
+uninterp spec fn is_meta(k: int, l: Seq<char>) -> bool;                // the k-th metadata test (strip_prefix("author ") ..., == "boundary"; 10: strip_prefix("filename "))
+uninterp spec fn fn_rest(l: Seq<char>) -> Seq<char>;                   // what follows the prefix `filename ` on such a line
+uninterp spec fn unquote(p: Seq<char>) -> Seq<char>;                   // crate::utils::unescape_git_path: git's C-style path quoting undone
 uninterp spec fn meta_upd(k: int, m: CurMeta, l: Seq<char>) -> CurMeta;    // what the k-th metadata statement stores
 uninterp spec fn meta_default() -> CurMeta;
 spec fn starts_tab(l: Seq<char>) -> bool { l.len() > 0 && l[0] == '\t' }
@@ -67,6 +71,17 @@ fn opq_starts_tab(s: &str) -> (r: bool)
 fn opq_meta(k: u8, line: &str, m: &mut CurMeta) -> (r: bool)
     ensures r == is_meta(k as int, line@), r ==> *final(m) == meta_upd(k as int, *old(m), line@), !r ==> *final(m) == *old(m),
 { unimplemented!() }
+/// TRUSTED reading of the ten abstracted metadata statements as far as the field `filename` goes (rule O1 hides their bodies):
+/// the tenth, `if let Some(rest) = line.strip_prefix("filename ") { cur_meta.filename = unescape_git_path(rest); continue; }`,
+/// stores the rest of the line UNQUOTED; the other nine assign other fields; `CurMeta::default()` has an empty filename.
+/// (The replay sweep runs the original statements against real `filename` lines, quoted and unquoted.)
+#[verifier::external_body]
+proof fn axiom_filename_field(k: int, m: CurMeta, l: Seq<char>)
+    ensures
+        k == 10 ==> meta_upd(k, m, l).filename@ == unquote(fn_rest(l)),
+        1 <= k <= 9 ==> meta_upd(k, m, l).filename@ == m.filename@,
+        meta_default().filename@ == Seq::<char>::empty(),
+{}
 /// stand-in for std::str::SplitWhitespace: the fields and how many were taken
 #[verifier::external_body]
 pub struct Fields<'a> { _p: core::marker::PhantomData<&'a str> }
@@ -114,7 +129,7 @@ spec fn all_fit(ls: Seq<Seq<char>>) -> bool { forall|i: int| 0 <= i < ls.len() =
 /// the metadata statement that takes the line, 0 when none does (they are tried in order)
 spec fn meta_kind(l: Seq<char>) -> int {
     if is_meta(1, l) { 1 } else if is_meta(2, l) { 2 } else if is_meta(3, l) { 3 } else if is_meta(4, l) { 4 } else if is_meta(5, l) { 5 }
-    else if is_meta(6, l) { 6 } else if is_meta(7, l) { 7 } else if is_meta(8, l) { 8 } else if is_meta(9, l) { 9 } else { 0 }
+    else if is_meta(6, l) { 6 } else if is_meta(7, l) { 7 } else if is_meta(8, l) { 8 } else if is_meta(9, l) { 9 } else if is_meta(10, l) { 10 } else { 0 }
 }
 struct PS { out: Seq<(Grp, CurMeta)>, cur: Option<Grp>, meta: CurMeta }
 spec fn pstep(st: PS, l: Seq<char>) -> PS {
@@ -138,7 +153,7 @@ spec fn hunk_is(h: BlameHunk, g: Grp, m: CurMeta) -> bool {
     &&& h.range.0 == g.fin && h.range.1 == range_end(g.fin, g.group) && h.orig_range.0 == g.orig && h.orig_range.1 == range_end(g.orig, g.group)
     &&& h.commit_sha@ == g.sha && h.original_author@ == m.author@ && h.author_email@ == m.author_mail@ && h.author_time == m.author_time && h.author_tz@ == m.author_tz@
     &&& h.committer@ == m.committer@ && h.committer_email@ == m.committer_mail@ && h.committer_time == m.committer_time && h.committer_tz@ == m.committer_tz@
-    &&& h.is_boundary == m.boundary && h.ai_human_author is None
+    &&& h.is_boundary == m.boundary && h.ai_human_author is None && h.filename@ == m.filename@
 }
 spec fn hunks_match(hs: Seq<BlameHunk>, out: Seq<(Grp, CurMeta)>) -> bool {
     hs.len() == out.len() && forall|i: int| 0 <= i < hs.len() ==> hunk_is(#[trigger] hs[i], out[i].0, out[i].1)
@@ -152,7 +167,7 @@ proof fn lemma_match_push(hs: Seq<BlameHunk>, out: Seq<(Grp, CurMeta)>, h: Blame
     assert forall|i: int| 0 <= i < hs2.len() implies hunk_is(#[trigger] hs2[i], out2[i].0, out2[i].1) by { if i < hs.len() { assert(hs2[i] == hs[i] && out2[i] == out[i]); } }
 }
 
-//#item file=src/commands/blame.rs kind=region name=bh_parse in=blame_hunks_for_ranges from="let mut hunks: Vec<BlameHunk> = Vec::new();" to="self.populate_hunk_abbrev_shas(&mut hunks, options);" from_nth=0 to_nth=0 impl="Repository" to_exclusive=yes opaque='[{"expr": "CurMeta::default()", "call": "opq_meta_default()"}, {"expr": "stdout.lines()", "call": "opq_lines(&stdout)"}, {"expr": "line.starts_with(\u0027\\t\u0027)", "call": "opq_starts_tab(line)"}, {"stmt_from": "if let Some(rest) = line.strip_prefix(\"author \") {", "call": "if opq_meta(1, line, &mut cur_meta) { continue; }"}, {"stmt_from": "if let Some(rest) = line.strip_prefix(\"author-mail \") {", "call": "if opq_meta(2, line, &mut cur_meta) { continue; }"}, {"stmt_from": "if let Some(rest) = line.strip_prefix(\"author-time \") {", "call": "if opq_meta(3, line, &mut cur_meta) { continue; }"}, {"stmt_from": "if let Some(rest) = line.strip_prefix(\"author-tz \") {", "call": "if opq_meta(4, line, &mut cur_meta) { continue; }"}, {"stmt_from": "if let Some(rest) = line.strip_prefix(\"committer \") {", "call": "if opq_meta(5, line, &mut cur_meta) { continue; }"}, {"stmt_from": "if let Some(rest) = line.strip_prefix(\"committer-mail \") {", "call": "if opq_meta(6, line, &mut cur_meta) { continue; }"}, {"stmt_from": "if let Some(rest) = line.strip_prefix(\"committer-time \") {", "call": "if opq_meta(7, line, &mut cur_meta) { continue; }"}, {"stmt_from": "if let Some(rest) = line.strip_prefix(\"committer-tz \") {", "call": "if opq_meta(8, line, &mut cur_meta) { continue; }"}, {"stmt_from": "if line == \"boundary\" {", "call": "if opq_meta(9, line, &mut cur_meta) { continue; }"}, {"expr": "line.split_whitespace()", "call": "opq_fields(line)"}, {"expr": "parts.next().unwrap_or(\"\")", "call": "opq_next_or_empty(&mut parts)"}, {"expr": "parts.next()", "call": "opq_next(&mut parts)"}, {"expr": "sha.chars().all(|c| c.is_ascii_hexdigit())", "call": "opq_all_hex(sha)"}, {"expr": "p2.parse::<u32>().unwrap_or(0)", "call": "opq_u32_or(p2, 0)"}, {"expr": "p3.parse::<u32>().unwrap_or(0)", "call": "opq_u32_or(p3, 0)"}, {"expr": "p4.unwrap_or(\"1\").parse::<u32>().unwrap_or(1)", "call": "opq_group(p4)"}]'
+//#item file=src/commands/blame.rs kind=region name=bh_parse in=blame_hunks_for_ranges from="let mut hunks: Vec<BlameHunk> = Vec::new();" to="self.populate_hunk_abbrev_shas(&mut hunks, options);" from_nth=0 to_nth=0 impl="Repository" to_exclusive=yes opaque='[{"expr": "CurMeta::default()", "call": "opq_meta_default()"}, {"expr": "stdout.lines()", "call": "opq_lines(&stdout)"}, {"expr": "line.starts_with(\u0027\\t\u0027)", "call": "opq_starts_tab(line)"}, {"stmt_from": "if let Some(rest) = line.strip_prefix(\"author \") {", "call": "if opq_meta(1, line, &mut cur_meta) { continue; }"}, {"stmt_from": "if let Some(rest) = line.strip_prefix(\"author-mail \") {", "call": "if opq_meta(2, line, &mut cur_meta) { continue; }"}, {"stmt_from": "if let Some(rest) = line.strip_prefix(\"author-time \") {", "call": "if opq_meta(3, line, &mut cur_meta) { continue; }"}, {"stmt_from": "if let Some(rest) = line.strip_prefix(\"author-tz \") {", "call": "if opq_meta(4, line, &mut cur_meta) { continue; }"}, {"stmt_from": "if let Some(rest) = line.strip_prefix(\"committer \") {", "call": "if opq_meta(5, line, &mut cur_meta) { continue; }"}, {"stmt_from": "if let Some(rest) = line.strip_prefix(\"committer-mail \") {", "call": "if opq_meta(6, line, &mut cur_meta) { continue; }"}, {"stmt_from": "if let Some(rest) = line.strip_prefix(\"committer-time \") {", "call": "if opq_meta(7, line, &mut cur_meta) { continue; }"}, {"stmt_from": "if let Some(rest) = line.strip_prefix(\"committer-tz \") {", "call": "if opq_meta(8, line, &mut cur_meta) { continue; }"}, {"stmt_from": "if line == \"boundary\" {", "call": "if opq_meta(9, line, &mut cur_meta) { continue; }"}, {"stmt_from": "if let Some(rest) = line.strip_prefix(\"filename \") {", "call": "if opq_meta(10, line, &mut cur_meta) { continue; }"}, {"expr": "line.split_whitespace()", "call": "opq_fields(line)"}, {"expr": "parts.next().unwrap_or(\"\")", "call": "opq_next_or_empty(&mut parts)"}, {"expr": "parts.next()", "call": "opq_next(&mut parts)"}, {"expr": "sha.chars().all(|c| c.is_ascii_hexdigit())", "call": "opq_all_hex(sha)"}, {"expr": "p2.parse::<u32>().unwrap_or(0)", "call": "opq_u32_or(p2, 0)"}, {"expr": "p3.parse::<u32>().unwrap_or(0)", "call": "opq_u32_or(p3, 0)"}, {"expr": "p4.unwrap_or(\"1\").parse::<u32>().unwrap_or(1)", "call": "opq_group(p4)"}]'
 //@ fn region_bh_parse(stdout: String) -> (hunks: Vec<BlameHunk>)
 //@     requires all_fit(sp_lines(stdout@)),
 //@     ensures
@@ -196,6 +211,7 @@ proof fn lemma_match_push(hs: Seq<BlameHunk>, out: Seq<(Grp, CurMeta)>, h: Blame
             if !(opq_meta(7, line, &mut cur_meta)) {
             if !(opq_meta(8, line, &mut cur_meta)) {
             if !(opq_meta(9, line, &mut cur_meta)) {
+            if !(opq_meta(10, line, &mut cur_meta)) {
 
             // Header line: either 4 fields (new hunk) or 3 fields (continuation)
             let mut parts = opq_fields(line);
@@ -242,6 +258,7 @@ proof fn lemma_match_push(hs: Seq<BlameHunk>, out: Seq<(Grp, CurMeta)>, h: Blame
                         committer_time: cur_meta.committer_time,
                         committer_tz: cur_meta.committer_tz.clone(),
                         is_boundary: cur_meta.boundary,
+                        filename: cur_meta.filename.clone(),
                     });
                     //@ proof { lemma_match_push(h0, st.out, hunks@[h0.len() as int], st.cur->Some_0, st.meta); }
                 }
@@ -269,7 +286,7 @@ proof fn lemma_match_push(hs: Seq<BlameHunk>, out: Seq<(Grp, CurMeta)>, h: Blame
                     cur_group_size = 1;
                 }
             }
-        } } } } } } } } } } } }
+        } } } } } } } } } } } } }
         }
 
         // Flush the final hunk if present
@@ -302,6 +319,7 @@ proof fn lemma_match_push(hs: Seq<BlameHunk>, out: Seq<(Grp, CurMeta)>, h: Blame
                 committer_time: cur_meta.committer_time,
                 committer_tz: cur_meta.committer_tz.clone(),
                 is_boundary: cur_meta.boundary,
+                filename: cur_meta.filename.clone(),
             });
             //@ proof { let fin = pfold(ls, ls.len() as int); lemma_match_push(hunks@.drop_last(), fin.out, hunks@.last(), fin.cur->Some_0, fin.meta); assert(hunks@.drop_last().push(hunks@.last()) =~= hunks@); }
         }
@@ -348,20 +366,34 @@ proof fn lemma_pfrom_concat(st: PS, a: Seq<Seq<char>>, b: Seq<Seq<char>>, n: int
 {
     if n == 0 { lemma_pfrom_prefix(st, a + b, a, a.len() as int); } else { lemma_pfrom_concat(st, a, b, n - 1); assert((a + b)[a.len() + n - 1] == b[n - 1]); }
 }
-/// inside a group nothing opens, closes or renumbers a hunk
+/// the path recorded after the first n lines of a group's body: the LAST `filename <path>` line so far, unquoted (f0 before any)
+spec fn fname_after(f0: Seq<char>, rest: Seq<Seq<char>>, n: int) -> Seq<char>
+    decreases n
+{
+    if n <= 0 { f0 } else { let l = rest[n - 1]; if l.len() > 0 && !starts_tab(l) && meta_kind(l) == 10 { unquote(fn_rest(l)) } else { fname_after(f0, rest, n - 1) } }
+}
+/// the path of a group: its `filename <path>` line unquoted, empty when git printed none
+spec fn gfile(g: BG) -> Seq<char> { fname_after(Seq::<char>::empty(), g.rest, g.rest.len() as int) }
+/// inside a group nothing opens, closes or renumbers a hunk; the recorded path is that of the group's last `filename` line
 proof fn lemma_inert(st: PS, rest: Seq<Seq<char>>, n: int)
     requires 0 <= n <= rest.len(), st.cur is Some, forall|i: int| 0 <= i < rest.len() ==> inert(#[trigger] rest[i]),
     ensures pfold_from(st, rest, n).out == st.out, pfold_from(st, rest, n).cur == st.cur,
+        pfold_from(st, rest, n).meta.filename@ == fname_after(st.meta.filename@, rest, n),
     decreases n
 {
-    if n > 0 { lemma_inert(st, rest, n - 1); assert(inert(rest[n - 1])); }
+    if n > 0 {
+        lemma_inert(st, rest, n - 1); assert(inert(rest[n - 1]));
+        let l = rest[n - 1]; let s0 = pfold_from(st, rest, n - 1);
+        axiom_filename_field(meta_kind(l), s0.meta, l);
+    }
 }
-/// THEOREM: one hunk per group, in order, with the numbers of the group's header - content never interferes
+/// THEOREM: one hunk per group, in order, with the numbers of the group's header and, as its path, the group's `filename <path>`
+/// line UNQUOTED (the path the file had in the originating commit; empty when git printed none) - content never interferes
 proof fn theorem_one_hunk_per_group(gs: Seq<BG>, n: int)
     requires 0 <= n <= gs.len(), forall|i: int| 0 <= i < gs.len() ==> bg_wf(#[trigger] gs[i]),
     ensures ({
         let out = finish(pfold(bflat(gs, n), bflat(gs, n).len() as int)).out;
-        out.len() == n && forall|i: int| 0 <= i < n ==> (#[trigger] out[i]).0 == grp_of(gs[i].hdr)
+        out.len() == n && forall|i: int| 0 <= i < n ==> (#[trigger] out[i]).0 == grp_of(gs[i].hdr) && out[i].1.filename@ == gfile(gs[i])
     }),
     decreases n
 {
@@ -369,7 +401,7 @@ proof fn theorem_one_hunk_per_group(gs: Seq<BG>, n: int)
     let st = pfold(bflat(gs, n), bflat(gs, n).len() as int);
     if n > 0 {
         let out = finish(st).out;
-        assert forall|i: int| 0 <= i < n implies (#[trigger] out[i]).0 == grp_of(gs[i].hdr) by { if i < n - 1 { assert(out[i] == st.out[i]); } }
+        assert forall|i: int| 0 <= i < n implies (#[trigger] out[i]).0 == grp_of(gs[i].hdr) && out[i].1.filename@ == gfile(gs[i]) by { if i < n - 1 { assert(out[i] == st.out[i]); } }
     }
 }
 /// after the first n groups: n - 1 hunks are complete, the n-th is open
@@ -378,7 +410,8 @@ proof fn lemma_groups(gs: Seq<BG>, n: int)
     ensures ({
         let st = pfold(bflat(gs, n), bflat(gs, n).len() as int);
         &&& n == 0 ==> st == pinit()
-        &&& n > 0 ==> st.out.len() == n - 1 && st.cur == Some(grp_of(gs[n - 1].hdr)) && forall|i: int| 0 <= i < n - 1 ==> (#[trigger] st.out[i]).0 == grp_of(gs[i].hdr)
+        &&& n > 0 ==> st.out.len() == n - 1 && st.cur == Some(grp_of(gs[n - 1].hdr)) && st.meta.filename@ == gfile(gs[n - 1])
+                && forall|i: int| 0 <= i < n - 1 ==> (#[trigger] st.out[i]).0 == grp_of(gs[i].hdr) && st.out[i].1.filename@ == gfile(gs[i])
     }),
     decreases n
 {
@@ -396,12 +429,14 @@ proof fn lemma_groups(gs: Seq<BG>, n: int)
         assert(pfold_from(st0, h, 1) == pstep(pfold_from(st0, h, 0), h[0]));
         let st1 = pfold_from(st0, h, 1);
         assert(st1.cur == Some(grp_of(g.hdr)));
+        assert(st1.meta == meta_default());
+        axiom_filename_field(0, st0.meta, g.hdr);
         lemma_inert(st1, g.rest, g.rest.len() as int);
         let st2 = pfold_from(st1, g.rest, g.rest.len() as int);
         assert(pfold(bflat(gs, n), bflat(gs, n).len() as int) == st2);
         if n > 1 {
             assert(st1.out == st0.out.push((grp_of(gs[n - 2].hdr), st0.meta)));
-            assert forall|i: int| 0 <= i < n - 1 implies (#[trigger] st2.out[i]).0 == grp_of(gs[i].hdr) by { if i < n - 2 { assert(st1.out[i] == st0.out[i]); } }
+            assert forall|i: int| 0 <= i < n - 1 implies (#[trigger] st2.out[i]).0 == grp_of(gs[i].hdr) && st2.out[i].1.filename@ == gfile(gs[i]) by { if i < n - 2 { assert(st1.out[i] == st0.out[i]); } }
         }
     }
 }
